@@ -266,6 +266,7 @@ func (g *g14) prepare() {
 			g.candSlice[s] = true
 		}
 	}
+	g.copies()
 	// a candidate slice produced by a helper of the balancer: S := lb.candidates(n) where the helper
 	// returns a slice that is a candidate slice with respect to its own parameter
 	if g.depth < 1 {
@@ -345,6 +346,23 @@ func (g *g14) prepare2() {
 	for s := range cands {
 		if !bad[s] {
 			g.candSlice[s] = true
+		}
+	}
+	g.copies()
+}
+
+// copies: `S := T` with T a candidate slice makes S one (the spelling a substituted helper leaves behind: S := helper() with
+// `return T` in the helper), provided S is defined once and never appended to.
+func (g *g14) copies() {
+	defs := localDefs(g.info, g.body)
+	for round := 0; round < 2; round++ {
+		for o, d := range defs {
+			if d == nil || g.candSlice[o] {
+				continue
+			}
+			if src := identObj(g.info, d); src != nil && g.candSlice[src] {
+				g.candSlice[o] = true
+			}
 		}
 	}
 }
@@ -562,81 +580,81 @@ func ruleG1b(r *Run) {
 		})
 		okPair := false
 		for _, body := range bodies {
-		var robj types.Object
-		ast.Inspect(body, func(n ast.Node) bool {
-			as, ok := n.(*ast.AssignStmt)
-			if !ok || len(as.Lhs) != 1 || len(as.Rhs) != 1 {
-				return true
-			}
-			be, ok := ast.Unparen(as.Rhs[0]).(*ast.BinaryExpr)
-			if !ok || be.Op != token.ADD {
-				return true
-			}
-			call, ok := ast.Unparen(be.X).(*ast.CallExpr)
-			if !ok || methodName(call) != "GetInt" || len(call.Args) < 1 {
-				return true
-			}
-			if lit, ok := call.Args[0].(*ast.BasicLit); ok && lit.Value == `"retried"` {
-				if c, ok := intConst(info, be.Y); ok && c == 1 {
-					robj = identObj(info, as.Lhs[0])
-				}
-			}
-			return true
-		})
-		stored := false
-		ast.Inspect(body, func(n ast.Node) bool {
-			if call, ok := n.(*ast.CallExpr); ok && methodName(call) == "Set" && len(call.Args) == 2 {
-				if lit, ok := call.Args[0].(*ast.BasicLit); ok && lit.Value == `"retried"` && identObj(info, call.Args[1]) == robj && robj != nil {
-					stored = true
-				}
-			}
-			return true
-		})
-		if robj != nil && stored {
-			okPair = true
-			// ... on EVERY path: the store is a statement of the callback's own block and no return comes before it
-			bp := parentMap(body)
+			var robj types.Object
 			ast.Inspect(body, func(n ast.Node) bool {
-				call, ok := n.(*ast.CallExpr)
-				if !ok || methodName(call) != "Set" || len(call.Args) != 2 || identObj(info, call.Args[1]) != robj {
+				as, ok := n.(*ast.AssignStmt)
+				if !ok || len(as.Lhs) != 1 || len(as.Rhs) != 1 {
 					return true
 				}
-				if lit, ok := call.Args[0].(*ast.BasicLit); !ok || lit.Value != `"retried"` {
+				be, ok := ast.Unparen(as.Rhs[0]).(*ast.BinaryExpr)
+				if !ok || be.Op != token.ADD {
 					return true
 				}
-				// the function (literal) the store belongs to
-				var fbody *ast.BlockStmt
-				var stmt ast.Node = call
-				for q := bp[call]; q != nil; q = bp[q] {
-					if fl, ok := q.(*ast.FuncLit); ok {
-						fbody = fl.Body
-						break
-					}
-					if _, ok := q.(ast.Stmt); ok && stmt == ast.Node(call) {
-						stmt = q
-					}
-				}
-				if fbody == nil {
-					fbody = body
-				}
-				why := ""
-				if bp[stmt] != ast.Node(fbody) {
-					why = "the store is conditional"
-				}
-				ast.Inspect(fbody, func(k ast.Node) bool {
-					if ret, ok := k.(*ast.ReturnStmt); ok && ret.Pos() < call.Pos() {
-						why = "a return at " + p.Rel(ret.Pos()) + " comes before the store"
-					}
+				call, ok := ast.Unparen(be.X).(*ast.CallExpr)
+				if !ok || methodName(call) != "GetInt" || len(call.Args) < 1 {
 					return true
-				})
-				if why != "" {
-					r.Viol(key+" on every path", call.Pos(), "OnRetry does not store the advanced `retried` item on every path ("+why+"): on that path the counter stands still, `retried < retry` stays true and an idempotent call is re-sent without end")
-				} else {
-					r.Ok(key+" on every path", call.Pos(), "the store is unconditional and precedes every return")
+				}
+				if lit, ok := call.Args[0].(*ast.BasicLit); ok && lit.Value == `"retried"` {
+					if c, ok := intConst(info, be.Y); ok && c == 1 {
+						robj = identObj(info, as.Lhs[0])
+					}
 				}
 				return true
 			})
-		}
+			stored := false
+			ast.Inspect(body, func(n ast.Node) bool {
+				if call, ok := n.(*ast.CallExpr); ok && methodName(call) == "Set" && len(call.Args) == 2 {
+					if lit, ok := call.Args[0].(*ast.BasicLit); ok && lit.Value == `"retried"` && identObj(info, call.Args[1]) == robj && robj != nil {
+						stored = true
+					}
+				}
+				return true
+			})
+			if robj != nil && stored {
+				okPair = true
+				// ... on EVERY path: the store is a statement of the callback's own block and no return comes before it
+				bp := parentMap(body)
+				ast.Inspect(body, func(n ast.Node) bool {
+					call, ok := n.(*ast.CallExpr)
+					if !ok || methodName(call) != "Set" || len(call.Args) != 2 || identObj(info, call.Args[1]) != robj {
+						return true
+					}
+					if lit, ok := call.Args[0].(*ast.BasicLit); !ok || lit.Value != `"retried"` {
+						return true
+					}
+					// the function (literal) the store belongs to
+					var fbody *ast.BlockStmt
+					var stmt ast.Node = call
+					for q := bp[call]; q != nil; q = bp[q] {
+						if fl, ok := q.(*ast.FuncLit); ok {
+							fbody = fl.Body
+							break
+						}
+						if _, ok := q.(ast.Stmt); ok && stmt == ast.Node(call) {
+							stmt = q
+						}
+					}
+					if fbody == nil {
+						fbody = body
+					}
+					why := ""
+					if bp[stmt] != ast.Node(fbody) {
+						why = "the store is conditional"
+					}
+					ast.Inspect(fbody, func(k ast.Node) bool {
+						if ret, ok := k.(*ast.ReturnStmt); ok && ret.Pos() < call.Pos() {
+							why = "a return at " + p.Rel(ret.Pos()) + " comes before the store"
+						}
+						return true
+					})
+					if why != "" {
+						r.Viol(key+" on every path", call.Pos(), "OnRetry does not store the advanced `retried` item on every path ("+why+"): on that path the counter stands still, `retried < retry` stays true and an idempotent call is re-sent without end")
+					} else {
+						r.Ok(key+" on every path", call.Pos(), "the store is unconditional and precedes every return")
+					}
+					return true
+				})
+			}
 		}
 		r.Check(okPair, key, fd.Pos(), `retried := GetInt("retried") + 1; Set("retried", retried)`, "OnRetry no longer increments the call's `retried` item by exactly one and stores it back: the budget `retried < retry` is never reached (endless retries) or skipped")
 	}
@@ -810,47 +828,47 @@ func ruleP7(r *Run) {
 					return true
 				})
 				for _, root := range roots {
-				ast.Inspect(root, func(k ast.Node) bool {
-					if c, ok := k.(*ast.CallExpr); ok {
-						if IsBuiltin(info, c, "delete") && len(c.Args) == 2 {
-							if fv := fieldOf(info, c.Args[0]); fv != nil && fv.Name() == "conns" {
-								del = true
-								for _, fc := range collectFacts(parents, c) {
-									be, isB := fc.e.(*ast.BinaryExpr)
-									if !isB || fc.neg || be.Op != token.EQL {
-										continue
-									}
-									for _, side := range [][2]ast.Expr{{be.X, be.Y}, {be.Y, be.X}} {
-										if ie, isI := ast.Unparen(side[0]).(*ast.IndexExpr); isI && fieldOf(info, ie.X) == fv {
-											if o := identObj(info, side[1]); o != nil && (o.Name() == "conn" || strings.HasSuffix(o.Type().String(), ".conn")) {
-												guarded = true
+					ast.Inspect(root, func(k ast.Node) bool {
+						if c, ok := k.(*ast.CallExpr); ok {
+							if IsBuiltin(info, c, "delete") && len(c.Args) == 2 {
+								if fv := fieldOf(info, c.Args[0]); fv != nil && fv.Name() == "conns" {
+									del = true
+									for _, fc := range collectFacts(parents, c) {
+										be, isB := fc.e.(*ast.BinaryExpr)
+										if !isB || fc.neg || be.Op != token.EQL {
+											continue
+										}
+										for _, side := range [][2]ast.Expr{{be.X, be.Y}, {be.Y, be.X}} {
+											if ie, isI := ast.Unparen(side[0]).(*ast.IndexExpr); isI && fieldOf(info, ie.X) == fv {
+												if o := identObj(info, side[1]); o != nil && (o.Name() == "conn" || strings.HasSuffix(o.Type().String(), ".conn")) {
+													guarded = true
+												}
 											}
 										}
 									}
 								}
 							}
-						}
-						if id, ok := ast.Unparen(c.Fun).(*ast.Ident); ok {
-							if v, ok := info.Uses[id].(*types.Var); ok && isNamed(v.Type(), "context", "CancelFunc") {
-								cancel = true
-								// not control-dependent on the pool-membership test: after Abort the connection is no longer in the pool
-								dep := false
-								for _, fc := range collectFacts(parents, c) {
-									ast.Inspect(fc.e, func(x ast.Node) bool {
-										if fv := fieldOf(info, exprOrNil(x)); fv != nil && fv.Name() == "conns" {
-											dep = true
-										}
-										return true
-									})
-								}
-								if !dep {
-									cancelAlways = true
+							if id, ok := ast.Unparen(c.Fun).(*ast.Ident); ok {
+								if v, ok := info.Uses[id].(*types.Var); ok && isNamed(v.Type(), "context", "CancelFunc") {
+									cancel = true
+									// not control-dependent on the pool-membership test: after Abort the connection is no longer in the pool
+									dep := false
+									for _, fc := range collectFacts(parents, c) {
+										ast.Inspect(fc.e, func(x ast.Node) bool {
+											if fv := fieldOf(info, exprOrNil(x)); fv != nil && fv.Name() == "conns" {
+												dep = true
+											}
+											return true
+										})
+									}
+									if !dep {
+										cancelAlways = true
+									}
 								}
 							}
 						}
-					}
-					return true
-				})
+						return true
+					})
 				}
 				return true
 			})
